@@ -122,12 +122,29 @@ def _oblige_conjuncts(st, name, goal, meta):
         st.oblige(name, goal, meta)
 
 
-def _call_pred(interp, pred, env):
-    """Call a sidecar predicate, passing the values of the names it asks for."""
+def _call_pred(interp, pred, env, assumed=False, proving=None):
+    """Call a sidecar predicate, passing the values of the names it asks for.  assumed: the caller is
+    going to assume the result (Interp.call_assumed); proving=(name, meta): the caller is going to record the
+    result as that obligation (Interp.call_proving)."""
     params = _param_names(pred)
     missing = [p for p in params if p not in env]
     if missing:
         raise Unsupported('loop/contract predicate asks for unknown name(s) %s' % missing)
+    if assumed == 'aligned':
+        return interp.call_assumed_aligned(pred, [env[p] for p in params], {})
+    if assumed:
+        return interp.call_assumed(pred, [env[p] for p in params], {})
+    if proving is not None:
+        n = len(interp.st.scopes)
+        try:
+            v = interp.call_proving(pred, [env[p] for p in params], proving[0], proving[1])
+            # the value is recorded by the caller as the last step of the same proof: under the steps so far
+            if len(interp.st.scopes) > n and isinstance(v, (SBool, bool)):
+                hyp = interp.st.scopes[n:]
+                v = wrap(z3.Implies(z3.And(*hyp) if len(hyp) > 1 else hyp[0], to_z3(v)))
+            return v
+        finally:
+            del interp.st.scopes[n:]
     return interp.call(pred, [env[p] for p in params], {})
 
 
@@ -226,6 +243,9 @@ def _havoc(interp, frame, spec, modified_names, tag):
             if obj is None:
                 raise Unsupported('modifies entry %r: unknown object' % name)
             ty.havoc_in_place(interp, obj, '%s@%s' % (name, tag))
+            declared_fields.add((id(obj), '<contents>'))     # (containers report changes of their contents)
+            if getattr(ty, 'whole', False):
+                declared_fields.add((id(obj), '*'))
             continue
         if ty == 'iter':
             # an iterator over a symbolic sequence that the body advances (nested loops over it, calls that
@@ -355,13 +375,14 @@ def exec_while(interp, node, frame):
     modified, _ = _check_frame(spec, node)
     label = '%s : loop#%s' % (fname, ordinal)
     # (1) invariant on entry
-    inv0 = interp.truth(_call_pred(interp, spec.invariant, _env_of(interp, frame, {})))
+    inv0 = interp.truth(_call_pred(interp, spec.invariant, _env_of(interp, frame, {}),
+                                   proving=(label + ' invariant[entry]', {'kind': 'loop-entry'})))
     _oblige_conjuncts(st, label + ' invariant[entry]', inv0, {'kind': 'loop-entry'})
     which = st.choose(2)
     declared_fields = _havoc(interp, frame, spec, modified, 'L%s' % ordinal)
     from . import strings as _strings
     _strings.forget_dead_pieces(interp)
-    inv = interp.truth(_call_pred(interp, spec.invariant, _env_of(interp, frame, {})))
+    inv = interp.truth(_call_pred(interp, spec.invariant, _env_of(interp, frame, {}), assumed=True))
     st.assume(inv)
     guard = interp.eval(node.test, frame)
     if which == 0:
@@ -372,17 +393,25 @@ def exec_while(interp, node, frame):
         if spec.decreases is not None:
             dec0 = _call_pred(interp, spec.decreases, _env_of(interp, frame, {}))
         its = _iter_positions(frame, None)
+        pre_val = None
+        if spec.pre is not None:
+            pre_val = _call_pred(interp, spec.pre, _env_of(interp, frame, {}))
         interp.loop_frame_stack.append({'declared': declared_fields, 'born': set(), 'loop': label})
         try:
             r = interp.exec_block(node.body, frame)
         finally:
             interp.loop_frame_stack.pop()
         _check_iterators_unchanged(spec, its, frame, None)
+        if spec.step is not None and (r is None or r[0] == 'continue'):
+            ok = interp.truth(_call_pred(interp, spec.step, _env_of(interp, frame, {'pre': pre_val}),
+                                         proving=(label + ' step', {'kind': 'loop-step'})))
+            st.oblige(label + ' step', ok, {'kind': 'loop-step'})
         if r is not None and r[0] not in ('continue',):
             if r[0] == 'break':
                 return None
             return r
-        inv2 = interp.truth(_call_pred(interp, spec.invariant, _env_of(interp, frame, {})))
+        inv2 = interp.truth(_call_pred(interp, spec.invariant, _env_of(interp, frame, {}),
+                                       proving=(label + ' invariant[preserved]', {'kind': 'loop-preserve'})))
         _oblige_conjuncts(st, label + ' invariant[preserved]', inv2, {'kind': 'loop-preserve'})
         if dec0 is not None:
             dec1 = _call_pred(interp, spec.decreases, _env_of(interp, frame, {}))
@@ -492,7 +521,8 @@ def _for_symbolic(interp, node, frame, src):
             e['_o'] = wrap(interp.loop_index_stack[-1])      # index of the enclosing symbolic loop
         return _env_of(interp, frame, e)
 
-    inv0 = interp.truth(_call_pred(interp, spec.invariant, env(start)))
+    inv0 = interp.truth(_call_pred(interp, spec.invariant, env(start),
+                                   proving=(label + ' invariant[entry]', {'kind': 'loop-entry'})))
     _oblige_conjuncts(st, label + ' invariant[entry]', inv0, {'kind': 'loop-entry'})
     which = st.choose(2)
     tag = 'L%s' % ordinal
@@ -504,7 +534,7 @@ def _for_symbolic(interp, node, frame, src):
         st.assume(z3.And(i >= start, i < n))
         if isinstance(ordinal, int):
             frame.locals['_i%d' % ordinal] = wrap(i)      # visible to invariants of inner loops
-        st.assume(interp.truth(_call_pred(interp, spec.invariant, env(i))))
+        st.assume(interp.truth(_call_pred(interp, spec.invariant, env(i), assumed=True)))
         frame.loop_index[ordinal] = wrap(i)
         x = models.slist_elem(interp, xs, i)
         if enum_start is not None:
@@ -513,6 +543,9 @@ def _for_symbolic(interp, node, frame, src):
             it_cell.pos = wrap(i + 1)
         interp.assign(node.target, x, frame)
         its = _iter_positions(frame, it_cell)
+        pre_val = None
+        if spec.pre is not None:
+            pre_val = _call_pred(interp, spec.pre, env(i))
         interp.loop_index_stack.append(i)
         interp.loop_frame_stack.append({'declared': declared_fields, 'born': set(), 'loop': label})
         try:
@@ -521,6 +554,11 @@ def _for_symbolic(interp, node, frame, src):
             interp.loop_index_stack.pop()
             interp.loop_frame_stack.pop()
         _check_iterators_unchanged(spec, its, frame, it_cell)
+        if spec.step is not None and (r is None or r[0] == 'continue'):
+            e2 = env(i + 1)
+            e2['pre'] = pre_val
+            ok = interp.truth(_call_pred(interp, spec.step, e2, proving=(label + ' step', {'kind': 'loop-step'})))
+            st.oblige(label + ' step', ok, {'kind': 'loop-step'})
         if r is not None and r[0] != 'continue':
             if it_cell is not None and it_cell.eager:
                 raise Unsupported('early exit from a loop over a generator that is used through its contract '
@@ -532,14 +570,15 @@ def _for_symbolic(interp, node, frame, src):
         if it_cell is not None:
             # the body may itself have consumed more of the iterator (e.g. `f.writelines(lines)`)
             nxt = to_z3(it_cell.pos) if not isinstance(it_cell.pos, int) else z3.IntVal(it_cell.pos)
-        inv2 = interp.truth(_call_pred(interp, spec.invariant, env(nxt)))
+        inv2 = interp.truth(_call_pred(interp, spec.invariant, env(nxt),
+                                       proving=(label + ' invariant[preserved]', {'kind': 'loop-preserve'})))
         _oblige_conjuncts(st, label + ' invariant[preserved]', inv2, {'kind': 'loop-preserve'})
         raise PathAbort()
     # exit: all elements consumed
     if isinstance(ordinal, int):
         frame.locals['_i%d' % ordinal] = wrap(n)
     st.assume(start <= n)
-    st.assume(interp.truth(_call_pred(interp, spec.invariant, env(z3.If(start <= n, n, start)))))
+    st.assume(interp.truth(_call_pred(interp, spec.invariant, env(z3.If(start <= n, n, start)), assumed=True)))
     frame.loop_index[ordinal] = wrap(n)
     if it_cell is not None:
         it_cell.pos = wrap(n)
